@@ -55,8 +55,32 @@ func C03(c *vlib.Ctx) {
 	c.Assume("schedules are sampled (8 histories in flight on 16 cores, Gosched and short sleeps between client operations), not enumerated")
 	c.Assume("exclusivity mode trusts settlement outcomes (those are C04's business) and alarms only when a dequeue returns a message the model says is leased-unexpired, not due, canceled, dead or settled, or with attempt != previous+1")
 	leaseHistories(c, "C03", leasecheck.ModeExclusivity, c.N(48, 2400), 0.15)
+	c03Sequential(c)
 	c03Dispatcher(c)
 	c.CollectRaces()
+}
+
+// c03Sequential: single-caller sequences with the snapshot-diff monitor: message
+// ids are reused after ack, DLQ delete, eviction and prune, dequeues use batches
+// up to 100, and the store has a long past (churn). Every dequeue result is
+// checked item by item: no message twice in one response, fresh lease ids,
+// only ready or expired messages, attempt = stored attempt + 1.
+func c03Sequential(c *vlib.Ctx) {
+	w := map[storecheck.Kind]int{storecheck.KEnqueue: 16, storecheck.KEnqueueBatch: 4, storecheck.KDequeue: 18, storecheck.KAck: 8, storecheck.KAckBatch: 4, storecheck.KNack: 4, storecheck.KExtend: 4,
+		storecheck.KDead: 4, storecheck.KDeleteDead: 4, storecheck.KCancel: 2, storecheck.KRequeue: 2, storecheck.KAdvance: 12, storecheck.KChurn: 1}
+	seqs := c.N(5, 600)
+	for _, be := range []string{"memory", "sqlite"} {
+		churn := 1050
+		if be == "sqlite" {
+			churn = 60
+		}
+		for s := 0; s < seqs; s++ {
+			r := vlib.Derive(c.Seed, "C03seq", be, s)
+			g := storecheck.GenCfg{NIDs: r.Range(3, 10), Routes: stdRoutes[:2], Targets: stdTargets[:2], Weights: w, Churn: churn}
+			storecheck.RunSequence(c, r, storecheck.RunCfg{Backends: []string{be}, Gen: g, Steps: r.Range(80, 160),
+				Label: fmt.Sprintf("C03/seq/%s/seq%d", be, s), Props: map[string]bool{"C03": true}})
+		}
+	}
 }
 
 // C04: lease fencing.
